@@ -20,6 +20,8 @@ func runC15(c *Check, tier string) {
 	ruleR01b(c, "R15d")
 	// a dependency whose restore failed must not be marked as loaded (all load tasks awaited, errors returned)
 	ruleR01d(c, "R15e")
+	// minimal mode loads exactly the dependencies the resolver hands back
+	ruleResolverTotal(c, "R15f")
 }
 
 func modeAtom(c *Check, op string) func(a engine.Atom) bool {
